@@ -69,3 +69,27 @@ func VH_message_write_read_ping() {
 	vAssert(ok && p.Nonce == nonce, "ping nonce round trips")
 	vReach("end")
 }
+
+// C08(5'): the checksum is verified for EVERY payload, the empty one included: a 24-byte frame for verack / mempool
+// / getaddr / sendheaders with an arbitrary 4-byte checksum is accepted iff the checksum is the first four bytes of
+// double-SHA256 of the empty string (5d f6 e0 e2).
+//verif:opts reach=accept,reject
+func VH_message_empty_payload_checksum() {
+	cmd := []string{"verack", "mempool", "getaddr", "sendheaders"}[vNondetLen("cmd", 3)]
+	hdr := []byte{0xf9, 0xbe, 0xb4, 0xd9}
+	var c [12]byte
+	copy(c[:], cmd)
+	hdr = append(hdr, c[:]...)
+	hdr = append(hdr, 0, 0, 0, 0)
+	sum := vNondetBytes("checksum", 4)
+	hdr = append(hdr, sum...)
+	_, msg, _, err := ReadMessageWithEncodingN(&vReader{b: hdr}, ProtocolVersion, MainNet, BaseEncoding)
+	good := sum[0] == 0x5d && sum[1] == 0xf6 && sum[2] == 0xe0 && sum[3] == 0xe2
+	vAssert((err == nil) == good, "an empty-payload message is accepted iff its checksum is that of the empty payload")
+	if err == nil {
+		vAssert(msg != nil && msg.Command() == cmd, "and decodes to its command")
+		vReach("accept")
+	} else {
+		vReach("reject")
+	}
+}
